@@ -12,7 +12,8 @@
      {"e":"exit","ls":listing}                the process ended by itself; listing taken by the parent
      {"e":"load","lines":[lines]}             SaveGlobals of a fresh process after AutoLoad
    listing = [gr |-> file, t1 |-> file, ..] (temp files named in order of appearance),
-   file = [ex, ls], line = [k, v, t]; bytes that are no known binding line arrive as k = 0.
+   file = [ex, ls], line = [k, v, s, t] (s = shape, see AutoSave.tla); bytes that are no known binding
+   line arrive as k = 0, s = "".
 
    An event is accepted when the spec action it names is enabled in the current state
    and the state file in the action's successor state equals the recorded one
